@@ -23,7 +23,7 @@ RULE = ("engines with 1-4 input variables (Mamdani and Takagi-Sugeno) x requeste
         "separators x decimals; reader contents with comments, blank lines, indentation and skipped lines. non-trivial: "
         "more than one grid row and at least two inputs, or a reader text with at least one dropped line; distinct = "
         "distinct (engine shape, scope, v, switches)")
-RULE += (" Engines with disabled input variables / output variables / rule blocks, exported with a selection of active variables and without one (to_string_from_scope, write_from_scope, to_string): drawn last.")
+RULE += (" Engines with disabled input variables / output variables / rule blocks, exported with a selection of active variables and without one (to_string_from_scope, write_from_scope, to_string): drawn last; including the engines in which NO output variable receives a value per row (every output variable disabled, every rule block disabled, both, every input variable disabled), with every header / inputs / outputs switch: one row per grid point, nan outputs.")
 RULE += (" Stream `fld-write` (fv/streams/fld_write.py): the control flow of FldExporter.write on a recording stub engine (ValueError for too few columns, order of restart / assignments / process, stacked blocks, header) against Op.Fld.write.")
 ASSUMPTIONS = ["printed numbers are compared with the exact grid values within half a unit of the last printed decimal",
                "output columns are compared with the engine's own batch results on the same input rows (text equality)"]
@@ -155,7 +155,11 @@ def parse_text(text, case):
 
 def check_export(case, model_rows):
     """compare one export with the model's rows; returns None or a description"""
-    e, text = export_scope(case)
+    try:
+        e, text = export_scope(case)
+    except Exception as ex:  # noqa: BLE001
+        return (f"the export raises {type(ex).__name__}: {str(ex)[:160]} (the grid has {len(model_rows)} points: a dataset of "
+                f"{len(model_rows)} rows is expected for every engine, whatever is switched off in it)")
     header, rows = parse_text(text, case)
     n, d = case["n"], case["decimals"]
     names_in = [iv.name for iv in e.input_variables]
@@ -197,7 +201,11 @@ def check_export(case, model_rows):
             for i, iv in enumerate(e2.input_variables):
                 iv.value = grid[:, i]
             e2.process()
-            exp_out = np.atleast_2d(e2.output_values)
+            # one row per grid point: an output variable that received no value per row (disabled, or without
+            # activations) holds the single value it produces for every one of them.  Read variable by variable, not
+            # through `Engine.output_values`, which is part of what the exporter itself uses
+            exp_out = np.column_stack([np.broadcast_to(np.atleast_1d(np.asarray(ov.value, dtype=float)), (len(model_rows),))
+                                       for ov in e2.output_variables]) if len(model_rows) else np.zeros((0, len(e2.output_variables)))
     for ri, (r, m) in enumerate(zip(rows, model_rows)):
         if len(r) != ncols:
             return f"row {ri} has {len(r)} columns, expected {ncols}"
@@ -249,13 +257,17 @@ def oracle_(case):
         return S_WRITE.oracle(case)       # control flow of FldExporter.write on a recording stub
     if case.get("reader") is not None:
         return oracle_reader(case)
-    e, text = export_scope(case)
-    header, rows = parse_text(text, case)
     n, v, d = case["n"], case["v"], case["decimals"]
     k = max(1, iroot_py(n, v)) if case["scope"] == "all" else v
     act = swept(case)
     per = [k if a else 1 for a in act]
     total = math.prod(per)
+    try:
+        e, text = export_scope(case)
+    except Exception as ex:  # noqa: BLE001
+        return False, (f"the export raises {type(ex).__name__}: {str(ex)[:160]}; expected a dataset of {total} rows, one per grid "
+                       f"point (k={k} per active input, {n} inputs, v={v}, scope={case['scope']}, disabled={case.get('disabled')})")
+    header, rows = parse_text(text, case)
     if case["headers"]:
         want_h = ([iv.name for iv in e.input_variables] if case["inputs"] else []) + \
                  ([ov.name for ov in e.output_variables] if case["outputs"] else [])
@@ -369,11 +381,11 @@ def gen_disabled_cases(ctx):
             off_in[rng.randrange(n)] = True
         off_out = rng.choice([[False, False], [False, False], [True, False], [False, True]])
         off_blocks = rng.choice([[False], [False], [True, False], [False, True], [False, False]])
-        # left out until decided (observed on the unchanged library, reported): engines in which no output variable
-        # receives a value per row - every output variable disabled, every rule block disabled, or (Mamdani) every input
-        # variable disabled; their export raises ValueError or prints a single row
-        if all(off_in):
-            off_in[rng.randrange(n)] = False
+        # engines in which NO output variable receives a value per row - every output variable disabled, every rule block
+        # disabled, or (an antecedent over a disabled input variable has degree 0) every input variable disabled - are
+        # engines like any other: one row per grid point, the output columns holding the single value (nan) each variable
+        # produces (F17: their export raised ValueError or printed a single row; `all(off_in)` is no longer excluded,
+        # the other two corners are drawn below, after the older choices)
         off = {"inputs": off_in, "outputs": off_out, "blocks": off_blocks}
         active = None if i % 2 == 0 else [rng.random() < 0.7 for _ in range(n)]
         ins, outs = rng.choice([(True, True), (True, True), (True, False), (False, True)])
@@ -383,7 +395,32 @@ def gen_disabled_cases(ctx):
                 "entry": rng.choice(["selection", "selection", "writer"])}
         if active is None and i % 12 == 0:
             case.update(entry="to_string", v=1024, scope="all", reuse=False)
+        u = rng.random()
+        if u < 0.3:
+            corner = rng.choice(["outputs", "blocks", "outputs+blocks", "inputs"])
+            if "outputs" in corner:
+                off["outputs"] = [True, True]
+            if "blocks" in corner:
+                off["blocks"] = [True] * len(off["blocks"])
+            if corner == "inputs":
+                off["inputs"] = [True] * n
         yield case
+    # the same corners with EVERY header / inputs / outputs switch, both scopes, with and without a selection (small grids)
+    switches = [(h, ins, outs) for h in (True, False) for ins, outs in ((True, True), (True, False), (False, True))]
+    corners = [{"outputs": [True, True]}, {"blocks": [True]}, {"blocks": [True, True]}, {"outputs": [True, True], "blocks": [True]},
+               {"inputs": "all"}]
+    for j in range(ctx.scale(30, 300)):
+        n = rng.randint(1, 3)
+        h, ins, outs = switches[j % len(switches)]
+        off = dict(corners[(j // len(switches)) % len(corners)])
+        kind = rng.choice(["mamdani", "ts"])
+        if off.get("inputs") == "all":
+            off["inputs"], kind = [True] * n, "mamdani"
+        scope = rng.choice(["all", "each"])
+        v = rng.randint(1, 60) if scope == "all" else rng.randint(1, {1: 20, 2: 6, 3: 4}[n])
+        yield {"n": n, "kind": kind, "scope": scope, "v": v, "active": None if rng.random() < 0.5 else [rng.random() < 0.7 for _ in range(n)],
+               "sep": rng.choice([" ", ",", "\t", ";"]), "headers": h, "inputs": ins, "outputs": outs, "decimals": rng.choice([1, 3, 6]),
+               "reuse": False, "disabled": off, "entry": rng.choice(["selection", "selection", "writer"])}
 
 
 def gen_readers(ctx):
